@@ -159,6 +159,48 @@ def cases(draw, max_pt):
     return {'model': m}
 
 
+@st.composite
+def many_structure_cases(draw):
+    """A ruleset with 100-160 base structures (a list trained at high coverage) and the Markov structure at a drawn line of
+    grammar.txt: 1, 50, 99-102, 128-130, last."""
+    k = draw(st.sampled_from([100, 101, 105, 130, 160]))
+    names = ['D1', 'D2', 'O1', 'K4', 'Y1', 'X1']
+    vars_ = {}
+    for nm in names:
+        vals = draw(S.values_for(nm, 2))
+        vars_[nm] = [[0.7, [vals[0]]], [0.3, [vals[1]]]] if draw(st.booleans()) else [[1.0, [vals[0]]]]
+    structs, seen = [], set()
+    i = 0
+    import itertools
+    for ln in (1, 2, 3, 4):
+        for combo in itertools.product(names, repeat=ln):
+            s_ = ''.join(combo)
+            if s_ not in seen:
+                seen.add(s_)
+                structs.append(s_)
+            if len(structs) >= k:
+                break
+        if len(structs) >= k:
+            break
+    # one strictly decreasing list of weights; the Markov structure takes the weight of the drawn line (the list stays sorted)
+    ratio = draw(st.sampled_from([0.97, 0.99, 0.9]))
+    pos = min(draw(st.sampled_from([0, 49, 98, 99, 100, 101, 127, 128, 129, len(structs)])), len(structs))
+    w = [ratio ** j_ for j_ in range(len(structs) + 1)]
+    tot = sum(w)
+    order = structs[:pos] + ['M'] + structs[pos:]
+    base = [[s_, x / tot] for s_, x in zip(order, w)]
+    m = {'encoding': 'utf-8', 'uuid': 'c14-many', 'vars': vars_, 'base': base,
+         'omen': {'ngram': 2, 'alphabet': ['a', 'b'], 'ip': [[0, 'a'], [1, 'b']], 'ep': [[0, 'a'], [1, 'b']], 'cp': [[0, 'aa'], [1, 'ab'], [0, 'ba'], [1, 'bb']],
+                  'ln': [10, 0, 1] + [10] * 18},
+         'm_levels': [[1, 0.05], [2, 0.01]], 'keyspace': [[1, 3], [2, 4]]}
+    return {'model': m, 'markov_line': pos + 1}
+
+
+def run_many(rec, seed, shard, nshards, tier):
+    n = {'quick': 3, 'thorough': 30}[tier]
+    core.hyp_run(rec, prop, many_structure_cases(), n, seed, shrink=False)
+
+
 def run_main(rec, seed, shard, nshards, tier):
     n = {'quick': 120, 'thorough': 3000}[tier]
     core.hyp_run(rec, prop, cases(200 if tier == 'quick' else 1000), n, seed)
@@ -234,4 +276,5 @@ def run_resume(rec, seed, shard, nshards, tier):
 PARTS = [
     Part('restriction', run_main, prop, {'quick': 8, 'thorough': 16}),
     Part('flags_through_resume', run_resume, prop_resume, {'quick': 6, 'thorough': 16}),
+    Part('many_structures', run_many, prop, {'quick': 3, 'thorough': 8}),
 ]
